@@ -173,14 +173,31 @@ func exponentHelperArg(c *ssa.Call) int {
 		ok = false
 	}
 	for _, b := range fn.Blocks {
-		if r, isR := b.Instrs[len(b.Instrs)-1].(*ssa.Return); isR && len(r.Results) == 1 {
-			leaf(r.Results[0], map[ssa.Value]bool{})
+		if r, isR := b.Instrs[len(b.Instrs)-1].(*ssa.Return); isR && retCount(r) == 1 {
+			leaf(retValue(r, 0), map[ssa.Value]bool{})
 		}
 	}
 	if !ok || n == 0 || idx < 0 {
 		return -1
 	}
 	return idx
+}
+
+// sameContainer: v is the container target, directly or read back from the field of the object under construction
+// it was assigned to (origin follows that read).
+func sameContainer(v, target ssa.Value) bool {
+	return v == target || (target != nil && origin(v) == target)
+}
+
+// mapUpdatesOf: the updates of fn that write into the map target (see sameContainer).
+func mapUpdatesOf(fn *ssa.Function, target ssa.Value) []*ssa.MapUpdate {
+	var out []*ssa.MapUpdate
+	allInstrs(fn, func(i ssa.Instruction) {
+		if mu, ok := i.(*ssa.MapUpdate); ok && sameContainer(mu.Map, target) {
+			out = append(out, mu)
+		}
+	})
+	return out
 }
 
 func isAttrLoad(v ssa.Value) bool {
@@ -393,15 +410,15 @@ func completenessRule(P *Program, R *Report) {
 			fa := &ForAll{P: P, Spec: ForAllSpec{Coll: is(dpb + "." + row.list), Body: func(f *ssa.Function, l *Loop) *MustPass {
 				return &MustPass{Instr: func(_ *ssa.Function, i ssa.Instruction) bool {
 					mu, ok := i.(*ssa.MapUpdate)
-					return ok && mu.Map == target && desc(mu.Key) == dpb+"."+row.list+"[#i]"
+					return ok && sameContainer(mu.Map, target) && desc(mu.Key) == dpb+"."+row.list+"[#i]"
 				}}
 			}}}
 			m := fa.inFn(fn, AcceptAny())
 			R.decide(rule, kDPBCreateProof+":"+row.field+":every-index", "every index of "+row.list+" gets an entry in ProofD."+row.field+" on every path", m.holds, m.detail, P.Pos(fn.Pos()))
 			if row.field == "ADisclosed" {
 				var badv []string
-				for _, r := range referrersOf(target) {
-					if mu, ok := r.(*ssa.MapUpdate); ok {
+				for _, mu := range mapUpdatesOf(fn, target) {
+					{
 						if !isAttrLoad(mu.Value) || attrIndexOf(mu.Value) != desc(mu.Key) {
 							badv = append(badv, desc(mu.Value)+" under key "+desc(mu.Key)+" at "+P.Pos(mu.Pos()))
 						}
@@ -411,8 +428,8 @@ func completenessRule(P *Program, R *Report) {
 			}
 			// and nothing else writes that map
 			extra := []string{}
-			for _, r := range referrersOf(target) {
-				if mu, ok := r.(*ssa.MapUpdate); ok && desc(mu.Key) != dpb+"."+row.list+"[#i]" {
+			for _, mu := range mapUpdatesOf(fn, target) {
+				if desc(mu.Key) != dpb+"."+row.list+"[#i]" {
 					extra = append(extra, "key "+desc(mu.Key)+" at "+P.Pos(mu.Pos()))
 				}
 			}
@@ -653,11 +670,12 @@ func proofDLiteralRule(P *Program, R *Report) {
 			R.decide(rule, c, f+" is a map built in this call (C04.b)", isMake, "got "+desc(st.Val), P.Pos(st.Pos()))
 		case "NonRevocationProof":
 			lv := phiLeaves(st.Val)
-			ok := lv["nil"] && len(lv) == 2 && lv["call:gabi.(*NonRevocationProofBuilder).CreateProof("+dpb+".nonrevBuilder,arg#1)"]
+			// (nil by default: in a literal the other phi edge, in a zero-valued object the unassigned field)
+			ok := (lv["nil"] || len(lv) == 1) && len(lv) <= 2 && lv["call:gabi.(*NonRevocationProofBuilder).CreateProof("+dpb+".nonrevBuilder,arg#1)"]
 			R.decide(rule, c, "the non-revocation part is nil or the nonrev builder's proof for this challenge", ok, "got "+strings.Join(sortedKeys(lv), "|"), P.Pos(st.Pos()))
 		case "RangeProofs":
 			lv := phiLeaves(st.Val)
-			ok := lv["nil"] && lv["makemap"] && len(lv) == 2
+			ok := (lv["nil"] || len(lv) == 1) && lv["makemap"] && len(lv) <= 2
 			R.decide(rule, c, "range proofs are nil or a map built in this call", ok, "got "+strings.Join(sortedKeys(lv), "|"), P.Pos(st.Pos()))
 		default:
 			R.bad(rule, c, "only tabled fields of ProofD are set by the prover", "untabled field "+f+" <- "+desc(st.Val), P.Pos(st.Pos()))
